@@ -52,7 +52,16 @@ def build(spec):
     return panelpool.build_series_transformer(spec)
 
 
-def fit(t, z, spec):
+def fit(t, z, spec, case=None):
+    if case is not None and case.get("prefit") is not None:
+        # the same object was fitted before on another series (other origin, hence another
+        # seasonal phase, other length and level): only the LAST fit counts
+        n0 = len(z) + 3
+        other = gen.build_series([9.0 + 2.5 * ((j * 7) % 5) + 0.31 * j for j in range(n0)], int(z.index[0]) + case["prefit"], case["index_kind"])
+        try:
+            t.fit(other, fh=[1]) if spec["kind"] == "pipeline_as_transformer" else t.fit(other)
+        except Exception:  # noqa: BLE001  (a refused earlier fit leaves a fresh object)
+            pass
     if spec["kind"] == "pipeline_as_transformer":
         return t.fit(z.copy(), fh=[1])
     return t.fit(z.copy())
@@ -92,7 +101,7 @@ def oracle_inverse(case, ctx):
     ctx.label(desc.split("(")[0])
     sp = sp_of(spec)
     ctx.mark_nontrivial((sp > 1 and case["off"] % sp != 0) or bool(case["updates"]) or case["start"] != 0)
-    r = sut(fit, t, z, spec)
+    r = sut(fit, t, z, spec, case)
     if isinstance(r, Raised):
         # a transformer may refuse its training data (e.g. seasonality test); nothing to check then
         if r.is_a(ValueError) or ("boxcox" in desc and r.is_a(RuntimeError)):
@@ -154,7 +163,7 @@ def oracle_phase(case, ctx):
         ctx.label("stretch_starts_before_training")
     if case["m"] % sp != 0:
         ctx.label("length_not_multiple_of_sp")
-    r = sut(fit, t, z, spec)
+    r = sut(fit, t, z, spec, case)
     if isinstance(r, Raised):
         if r.is_a(ValueError):
             ctx.mark_rejected()
@@ -197,9 +206,9 @@ def oracle_phase(case, ctx):
     return discs
 
 
-def _run_shift(spec, z):
+def _run_shift(spec, z, case=None):
     t = build(spec)
-    r = sut(fit, t, z, spec)
+    r = sut(fit, t, z, spec, case)
     if isinstance(r, Raised):
         return r
     return sut(t.transform, z.copy())
@@ -220,8 +229,8 @@ def oracle_shift(case, ctx):
     z2 = pd.Series(z.to_numpy().copy(), index=gen.int_index(int(z.index[0]) + k, len(z), case["index_kind"]))
     ctx.label(spec["kind"])
     ctx.mark_nontrivial(case["start"] != 0 or True)
-    a = _run_shift(spec, z)
-    b = _run_shift(spec, z2)
+    a = _run_shift(spec, z, case)
+    b = _run_shift(spec, z2, case)
     if spec["kind"] == "boxcox" and (isinstance(a, Raised) or isinstance(b, Raised)) and not (
             isinstance(a, Raised) and isinstance(b, Raised)):
         ctx.mark_rejected()
@@ -272,6 +281,7 @@ def base_case(draw, spec_strategy):
         # the stretch may also start before the training series (overlapping it or not)
         "off": draw(st.one_of(st.integers(0, n + 20), st.integers(0, n + 20), st.integers(-14, -1))), "m": draw(st.integers(2, 20)),
         "reuse_train_values": draw(st.booleans()),
+        "prefit": draw(st.sampled_from([None, None, None, -5, 1, 2, 7])),
         "updates": draw(st.lists(st.integers(1, 7), max_size=2)),
     }
 
@@ -288,9 +298,9 @@ def subchecks():
     phase_specs = st.builds(lambda sp, m, k: {"kind": k, "sp": sp, "model": m}, st.integers(2, 8),
                             st.sampled_from(["additive", "multiplicative"]), st.sampled_from(["deseason", "deseason", "cond_deseason"]))
     return [
-        SubCheck("inverse_roundtrip", oracle_inverse, base_case(invertible_specs()), quick=600, thorough=8000, shards_quick=4, shards_thorough=16),
-        SubCheck("seasonal_phase", oracle_phase, base_case(phase_specs), quick=500, thorough=8000, shards_quick=2, shards_thorough=8),
-        SubCheck("shift_metamorphic", oracle_shift, shift_cases(), quick=600, thorough=8000, shards_quick=4, shards_thorough=16),
+        SubCheck("inverse_roundtrip", oracle_inverse, base_case(invertible_specs()), quick=2000, thorough=8000, shards_quick=4, shards_thorough=16),
+        SubCheck("seasonal_phase", oracle_phase, base_case(phase_specs), quick=1500, thorough=8000, shards_quick=4, shards_thorough=8),
+        SubCheck("shift_metamorphic", oracle_shift, shift_cases(), quick=2000, thorough=8000, shards_quick=4, shards_thorough=16),
     ]
 
 
